@@ -148,16 +148,21 @@ def strip_comments(src):
     return "".join(out)
 
 
-def lean_sources():
-    res = []
-    for root, _, files in os.walk(os.path.join(LEAN_DIR, "ArtapModel")):
-        for f in files:
-            if f.endswith(".lean"):
-                res.append(os.path.join(root, f))
-    for f in os.listdir(os.path.join(LEAN_DIR, "drivers")):
-        if f.endswith(".lean"):
-            res.append(os.path.join(LEAN_DIR, "drivers", f))
-    return sorted(res)
+def lean_sources(prop):
+    """Files the property depends on: import closure of Props/<prop>.lean and drivers/<prop>.lean
+    inside this project."""
+    todo = [os.path.join(LEAN_DIR, "ArtapModel", "Props", prop + ".lean"), os.path.join(LEAN_DIR, "drivers", prop + ".lean")]
+    seen = []
+    while todo:
+        f = todo.pop()
+        if f in seen or not os.path.exists(f):
+            continue
+        seen.append(f)
+        for line in open(f):
+            m = re.match(r"\s*(?:public\s+)?import\s+(ArtapModel\.\S+)", line)
+            if m:
+                todo.append(os.path.join(LEAN_DIR, *m.group(1).split(".")) + ".lean")
+    return sorted(seen)
 
 
 def theorem_names(prop):
@@ -189,7 +194,7 @@ def audit(prop, thorough=False):
     if not names:
         raise InfraError("no theorems found for " + prop)
     bad_tokens = []
-    for p in lean_sources():
+    for p in lean_sources(prop):
         m = FORBIDDEN.search(strip_comments(open(p).read()))
         if m:
             bad_tokens.append((os.path.relpath(p, LEAN_DIR), m.group(0).strip()))
